@@ -74,6 +74,15 @@ pub fn any_graph_strategy_w(max_len: usize, heavy_weight: u32) -> BoxedStrategy<
         200 => graph_strategy(&ALL_KINDS, 0, 9, me, &[0, 1, 1, 3, 8], 3).prop_map(AnyGraph::Graph),
         // a few larger graphs, so that size-dependent behaviour is not out of reach
         100 => graph_strategy(&ALL_KINDS, 10, 30, me, &[0, 1, 3], 3).prop_map(AnyGraph::Graph),
+        // sizes around powers of two up to 255 nodes, mostly structured (stars, cliques, grids ...)
+        // (the dense shapes are capped at 40 nodes: the reference computations here are quadratic
+        // in the number of edges)
+        20 => boundary_graph_strategy(&ALL_KINDS, me, &[0, 1, 3], 7, 255).prop_map(|mut g| {
+            if matches!(g.shape, 4 | 5 | 9 | 12) {
+                g.n = g.n.min(40);
+            }
+            AnyGraph::Graph(g)
+        }),
         // a pair with hundreds or thousands of parallel edges (one case in ~400: they are slow)
         heavy_weight => heavy_strategy().prop_map(AnyGraph::Heavy),
     ]
